@@ -79,8 +79,23 @@ def run(ctx):
     # the rejecting edge produces NonPositiveChance
     errs = {}
     for g in [f] + closures:
+        wrapped = {}
+        # an error value built ahead of the test and handed to a checking helper (`ensure(cond, GameError::X)?`): the
+        # place where it *becomes* the result — `Err(that value)` — is where it is produced
+        for bi, st, e in q.agg_sites(g, 'result::Result', 'Err'):
+            pay = strip_refs(e[2][0]) if e[2] else None
+            if pay is not None and pay[0] == 'agg' and pay[1].startswith('adt:') and 'GameError::' in pay[1]:
+                wrapped.setdefault(pay[1].split('::')[-1], []).append((g, bi))
         for bi, st, e in q.agg_sites(g, 'error::GameError'):
-            errs.setdefault(e[1].split('::')[-1], []).append((g, bi))
+            v_ = e[1].split('::')[-1]
+            uncond = not any(c['kind'] not in ('variant', 'value') for c in g.conds(bi))
+            if v_ in wrapped and uncond and not any(b_ == bi for _, b_ in wrapped[v_]):
+                continue        # only the construction of the argument; the wrapped sites below stand for it
+            errs.setdefault(v_, []).append((g, bi))
+        for v_, sites_ in wrapped.items():
+            for s_ in sites_:
+                if s_ not in errs.get(v_, []):
+                    errs.setdefault(v_, []).append(s_)
 
     # ---- R2 chance node arm and existing infoset
     rule = 'C11.chance-node'
@@ -226,7 +241,20 @@ def run(ctx):
             for x, y in ((a, b), (b, a)):
                 xs = strip_refs(x)
                 if q.is_call(xs, 'collect') and any(norm(z) == norm(y) for z in facts.walk(xs)):
-                    u_ok = True
+                    # ... a *set*: a Vec of the same elements has the same length whatever repeats (`dedup()` only drops
+                    # adjacent repeats, so it needs a sort before it to count distinct elements)
+                    cty = ''
+                    if len(xs) > 3 and xs[3] and xs[3][0] == f.name:
+                        tt_ = f.blocks[xs[3][1]]['term']
+                        cty = str(tt_.get('dest', {}).get('ty', ''))
+                    if 'HashSet' in cty or 'BTreeSet' in cty or 'IndexSet' in cty:
+                        u_ok = True
+                    elif 'Vec<' in cty:
+                        sorts = [bj for bj, _, se in q.calls_named(f, 'sort') + q.calls_named(f, 'sort_unstable') + q.calls_named(f, 'sort_by') + q.calls_named(f, 'sort_unstable_by')]
+                        dd = [bj for bj, _, de in q.calls_named(f, 'dedup')]
+                        u_ok = bool(dd) and any(f.dominates(sb, db_) for sb in sorts for db_ in dd)
+                    else:
+                        u_ok = True
         ctx.verdict(u_ok, rule, '%s:distinct-actions:%s' % (rule, top), 'a new infoset is inserted only if the set of its actions has as many elements as the list', f.where(bi), 'uniqueness test dominates: %s' % u_ok,
                     breaks='duplicate actions are accepted')
         cross = [c for c in cs if c['kind'] in ('Is:contains_key', 'Is:contains') and c['truth'] is False and 'single_infosets' in facts.show(c['a'])]
